@@ -56,6 +56,7 @@ Dispatch(e) ==
     [] e.act = "ReplaceSame"       -> ReplaceSame(e.c, e.x)
     [] e.act = "ReplaceComp"       -> ReplaceComp(e.c, e.x)
     [] e.act = "DeleteComp"        -> DeleteComp(e.c)
+    [] e.act = "Peek"              -> Peek(e.c, e.x)
     [] e.act = "MutateReturned"    -> MutateReturned
 
 TraceNext == /\ pos < Len(Steps(tid))
